@@ -247,3 +247,49 @@ def targets():
             Target('logic', 'packbits', [packbits_config(m) for m in (1, 3, 8, 9)], prims=prims),
             Target('logic', 'mv_to_bp', [mv_to_bp_config(2), mv_to_bp_config(1)], prims=prims),
             Target('logic', 'bp_to_mv', [bp_to_mv_config(3), bp_to_mv_config(1), bp_to_mv_config(2), bp_to_mv_config(8), bp_to_mv_config(3, compose=True)], prims=prims)]
+
+
+# ---------------------------------------------------------------------------------------------- leading batch axis (axis convention: the last two axes)
+def batch_config(fname, m=3):
+    """the same statements for arrays with one more leading axis: only the last two (mv) / three (bp) axes take part"""
+    X3 = z3.Function('X_in3', I, I, I, BV8)
+    Y4 = z3.Function('Y_in4', I, I, I, I, BV8)
+
+    def setup(ex):
+        st = State()
+        k, n, s, nb = (ex.fv(v, 'int') for v in ('k', 'n', 's', 'nbytes'))
+        st.assume(SBool(z3.And(k.e >= 0, n.e >= 0, s.e >= 0, nb.e >= 0)))
+        if fname == 'mv_to_bp':
+            st.env['mva'] = FArr([k, n, s], lambda ix: X3(ix[0], ix[1], ix[2]))
+        else:
+            st.env['bpa'] = FArr([k, n, m, nb], lambda ix: Y4(ix[0], ix[1], ix[2], ix[3]))
+        ex.g = dict(k=k, n=n, s=s, nb=nb)
+        return st
+
+    def post(ex, st):
+        from pyvc.models_farr import pack8
+        g = ex.g
+        r = st.ret
+        if fname == 'mv_to_bp':
+            dims = [g['k'], g['n'], 3, SInt((g['s'].e + 7) / 8)]
+            yield from shape_is(r, dims)
+            if isinstance(r, FArr) and r.nd == 4:
+                a, i, p, j = idx_vars(ex, st, 'aipj', dims)
+                want = pack8([z3.And(8 * j + b < g['s'].e, z3.Extract(0, 0, bit(X3(a, i, 8 * j + b), p)) == 1) for b in range(8)])
+                yield 'batch axis kept: bit b of element [a,i,p,j] is bit p of mva[a, i, 8j+b]', SBool(r.elem([a, i, p, j]) == want)
+                ex.prove(st, 'mustfail:every bit-parallel byte is 0', SBool(r.elem([a, i, p, j]) == 0), ex.fn, expect='refuted')
+        else:
+            dims = [g['k'], g['n'], SInt(8 * g['nb'].e)]
+            yield from shape_is(r, dims)
+            if isinstance(r, FArr) and r.nd == 3:
+                a, i, t = idx_vars(ex, st, 'ait', dims)
+                for p in range(8):
+                    want = (z3.Extract(0, 0, bit(Y4(a, i, z3.IntVal(p), t / 8), t % 8)) == 1) if p < m else z3.BoolVal(False)
+                    yield f'batch axis kept: bit {p} of element [a,i,t]', SBool((z3.Extract(p, p, r.elem([a, i, t])) == 1) == want)
+                ex.prove(st, 'mustfail:every converted value is 0', SBool(r.elem([a, i, t]) == 0), ex.fn, expect='refuted')
+    return Config(f'{fname} with a leading batch axis', {'post': post}, setup, None)
+
+
+def targets_batch():
+    return [Target('logic', 'mv_to_bp', [batch_config('mv_to_bp')], prims=prims, label='batch axis'),
+            Target('logic', 'bp_to_mv', [batch_config('bp_to_mv')], prims=prims, label='batch axis')]
